@@ -70,7 +70,11 @@ def explore(ctx, system, depth, dev, deadline=None, chunk=64):
             capped = True
             break
         # phase A: canonical keys
-        keys = _gather(ctx, _phase_a, frontier, chunk, "keys")
+        try:
+            keys = _gather(ctx, _phase_a, frontier, chunk, "keys", deadline)
+        except _Capped:
+            capped = True
+            break
         # worker completion order must not influence which history represents a state
         keys.sort(key=lambda hk: repr(hk[0]))
         fresh = []
@@ -81,7 +85,11 @@ def explore(ctx, system, depth, dev, deadline=None, chunk=64):
             seen[key] = hist
             fresh.append(hist)
         # phase B: invariants + expansion on distinct states only
-        succ = _gather(ctx, _phase_b, fresh, max(1, chunk // 4), "succ")
+        try:
+            succ = _gather(ctx, _phase_b, fresh, max(1, chunk // 4), "succ", deadline)
+        except _Capped:
+            capped = True  # violations found in the part of the level that was checked are kept; the level is not counted
+            break
         nxt = []
         for hist, evs in succ:
             if not evs:
@@ -103,7 +111,11 @@ def explore(ctx, system, depth, dev, deadline=None, chunk=64):
     }
 
 
-def _gather(ctx, func, items, chunk, note):
+class _Capped(Exception):
+    pass
+
+
+def _gather(ctx, func, items, chunk, note, deadline=None):
     if not items:
         return []
     shards = [items[i : i + chunk] for i in range(0, len(items), chunk)]
@@ -115,15 +127,17 @@ def _gather(ctx, func, items, chunk, note):
         results.extend(ex["notes"].pop(note, []))
         harness.Ctx.merge(sub, ex)
 
-    _pmap_collect(sub, func, shards, merge_hook)
-    # fold sub into ctx (without the bulky notes)
-    ex = sub.export()
-    ex["notes"] = {k: v for k, v in ex["notes"].items() if k.startswith("worker_error_")}
-    ctx.merge(ex)
+    try:
+        _pmap_collect(sub, func, shards, merge_hook, deadline)
+    finally:
+        # fold sub into ctx (without the bulky notes) - also when the level was cut short by the deadline
+        ex = sub.export()
+        ex["notes"] = {k: v for k, v in ex["notes"].items() if k.startswith("worker_error_")}
+        ctx.merge(ex)
     return results
 
 
-def _pmap_collect(sub, func, shards, merge_hook):
+def _pmap_collect(sub, func, shards, merge_hook, deadline=None):
     import multiprocessing as mp
 
     nproc = harness.NPROC
@@ -141,3 +155,6 @@ def _pmap_collect(sub, func, shards, merge_hook):
             if errs:
                 raise harness.HarnessError("worker crashed:\n" + errs[0])
             merge_hook(ex)
+            if deadline and time.time() > deadline:
+                pool.terminate()
+                raise _Capped()
